@@ -98,6 +98,12 @@ def eq_values(I, st, a, b):
         if heap_is_obj(I, other):
             return other == heap_none(I)
         return False
+    if isinstance(a, Inf) or isinstance(b, Inf):
+        if isinstance(a, Inf) and isinstance(b, Inf):
+            return a.sign == b.sign
+        if isinstance(a, Opaque) or isinstance(b, Opaque):
+            raise Unsupported("== on an uninterpreted value")
+        return False  # A1: every other modelled number is finite
     if is_z3(a) or is_z3(b):
         if isinstance(a, (str, tuple, Ref, Opaque)) or isinstance(b, (str, tuple, Ref, Opaque)):
             return False
@@ -126,6 +132,8 @@ def eq_values(I, st, a, b):
         if ea.kind != eb.kind:
             if {ea.kind, eb.kind} <= {"list", "deque"}:
                 return False
+            if any(x.kind == "obj" and "__list__" in x.attrs for x in (ea, eb)):
+                raise Unsupported("== on an instance of a list subclass")
             return False
         if ea.kind in ("list", "deque"):
             return seq_eq(I, st, ea.items, eb.items)
@@ -138,6 +146,8 @@ def eq_values(I, st, a, b):
         if ea.kind == "set":
             return set(ea.items) == set(eb.items)
         if ea.kind == "obj":
+            if a.id != b.id and ("__list__" in ea.attrs or "__list__" in eb.attrs):
+                raise Unsupported("== on instances of a list subclass")
             return a.id == b.id
         if ea.kind == "symlist":
             if a.id == b.id:
@@ -247,6 +257,15 @@ def compare(I, st, op, a, b):
         return
     if isinstance(a, str) and isinstance(b, str):
         yield st, {"Lt": a < b, "LtE": a <= b, "Gt": a > b, "GtE": a >= b}[op]
+        return
+    if isinstance(a, Inf) or isinstance(b, Inf):
+        if not all(isinstance(x, Inf) or is_number(x) for x in (a, b)):
+            yield st, exc("TypeError", "'%s' not supported between %r and %r" % (op, a, b))
+            return
+        # A1: every modelled number is finite, i.e. strictly between -inf and +inf
+        ra = a.sign if isinstance(a, Inf) else 0
+        rb = b.sign if isinstance(b, Inf) else 0
+        yield st, {"Lt": ra < rb, "LtE": ra <= rb and (ra != 0 or rb != 0), "Gt": ra > rb, "GtE": ra >= rb and (ra != 0 or rb != 0)}[op]
         return
     if a is None or b is None or not (is_number(a) and is_number(b)):
         yield st, exc("TypeError", "'%s' not supported between %r and %r" % (op, a, b))
@@ -360,7 +379,12 @@ def contains(I, st, container, item):
                     if isinstance(x, Ref) and isinstance(item, Ref) and x.id == item.id:
                         parts.append(True)
                         continue
-                    raise Unsupported("`in` over objects with __eq__")
+                    # list.__contains__: element == item through the objects' __eq__ (no fork, no exception: else unsupported)
+                    outs = list(compare(I, st, "Eq", x, item))
+                    if len(outs) != 1 or isinstance(outs[0][1], Exc) or outs[0][0] is not st:
+                        raise Unsupported("`in` over objects with __eq__ that forks or raises")
+                    parts.append(outs[0][1])
+                    continue
                 parts.append(eq_values(I, st, x, item))
             yield st, disj(parts)
             return
@@ -394,6 +418,9 @@ def contains(I, st, container, item):
             if m is not None:
                 items = I.iterate(container, st)
                 yield st, disj([eq_values(I, st, x, item) for x in items])
+                return
+            if "__list__" in e.attrs:
+                yield from contains(I, st, e.attrs["__list__"], item)
                 return
         if e.kind == "nd":
             yield st, disj([eq_values(I, st, x, item) for x in e.data])
@@ -541,6 +568,11 @@ def getitem(I, st, obj, idx):
             m, _ = I.class_lookup(e.cls, "__getitem__")
             if m is None and "__tuple__" in e.attrs:
                 yield from getitem(I, st, e.attrs["__tuple__"], idx)
+                return
+            if m is None and "__list__" in e.attrs:
+                if isinstance(idx, SliceVal):
+                    raise Unsupported("slice of an instance of a list subclass")
+                yield from getitem(I, st, e.attrs["__list__"], idx)
                 return
             if m is None:
                 yield st, exc("TypeError", "object is not subscriptable")
@@ -765,6 +797,9 @@ def setitem(I, st, obj, idx, v):
             return
         if e.kind == "obj":
             m, _ = I.class_lookup(e.cls, "__setitem__")
+            if m is None and "__list__" in e.attrs:
+                yield from setitem(I, st, e.attrs["__list__"], idx, v)
+                return
             if m is None:
                 yield st, exc("TypeError", "object does not support item assignment")
                 return
@@ -815,6 +850,9 @@ def delitem(I, st, obj, idx):
                 for st1, r in I.call(m, [obj, idx], {}, st):
                     yield st1, (r if isinstance(r, Exc) else None)
                 return
+            if "__list__" in e.attrs:
+                yield from delitem(I, st, e.attrs["__list__"], idx)
+                return
     raise Unsupported("del item on %r" % (obj,))
 
 
@@ -853,6 +891,8 @@ def iterate(I, st, v):
             return npmodel.nd_rows(I, st, v)
         if e.kind == "obj" and "__tuple__" in e.attrs and I.class_lookup(e.cls, "__iter__")[0] is None:
             return list(e.attrs["__tuple__"])
+        if e.kind == "obj" and "__list__" in e.attrs and I.class_lookup(e.cls, "__iter__")[0] is None:
+            return list(st.get(e.attrs["__list__"]).items)
         if e.kind == "obj":
             m, _ = I.class_lookup(e.cls, "__iter__")
             if m is not None:
